@@ -304,8 +304,36 @@ def bound_sites(chk, db, table, tier):
                             extra_hook=c08.view_hook)
         models += n
         report(f, sites, "")
+    # (3) basic_inplace_string, const members: pointers formed from data() / begin() stay within [0, size()] (a read-only member
+    #     has no business behind the last character; the mutating members may form pointers up to capacity())
+    total_sites += string_read_sites(chk, db, report)
     chk.extra["bound_models_evaluated"] = models
     return total_sites
+
+
+def string_read_sites(chk, db, report=None):
+    n = 0
+    for f in db.funcs_of_record("etl::basic_inplace_string"):
+        if f.get("kind") != "method" or not f.get("const") or f.get("body") is None:
+            continue
+        try:
+            sites, _m = B.decide(db, f, {}, extra_hook=c08.view_hook)
+        except Exception:
+            continue
+        for sid, s in sorted(sites.items()):
+            n += 1
+            construct = "%s :: %s" % (astx.sig(f), sid)
+            chk.instance("BOUND")
+            chk.obligation("BOUND", construct, True if s.verdict == "PROVED" else (None if s.verdict == "UNKNOWN" else False),
+                           nontrivial=True, evaluations=max(1, s.reached))
+            if s.verdict == "REFUTED":
+                chk.violation("BOUND", construct, "out-of-bounds",
+                              "%s:%s: %s may be out of bounds: index %s, bound %s; witness %s" % (
+                                  s.info["file"], s.info["line"], s.info["what"], s.info["index"], s.info["bound"], s.witness),
+                              {"where": "%s:%s" % (s.info["file"], s.info["line"]), "witness": s.witness})
+            elif s.verdict == "UNKNOWN":
+                chk.unknown_instance("BOUND", construct, s.witness or "")
+    return n
 
 
 def objscan(chk):
@@ -421,7 +449,13 @@ def run(chk, tier):
                               astx.loc(f, node), var, what, astx.show(node, 50)), {"where": astx.loc(f)})
     if n1 < 60:
         chk.analysis_broken("IT1: only %d algorithms with a modelled scan cursor (floor 60)" % n1)
+    _IT.counted_area(chk, cdb, ['_algorithm/', '_numeric/', '_memory/'], floor=2)      # IT1n: counted ranges are touched only where count > 0
+    if _IT.rawdiff_rule(chk, cdb) < 1:
+        chk.unknown_instance('RAWDIFF', 'etl::midpoint', 'the integral overload of midpoint was not recognised')
     _IT.counted_buffer_area(chk, cdb, ['_string/char_traits', '_cstring/', '_cwchar/', '_strings/cstr', '_algorithm/', '_memory/'])      # PTRCOUNT
+    # ---- SUB: the (pointer, count) pairs span::first / last / subspan build stay inside the span (shared with C19)
+    from . import c19 as _c19
+    _c19.sub_rule(chk, db, table)
     # ---- SHIFT: a shift count that can reach the promoted width of its left operand is undefined behaviour
     from ..rules import shift as _SH
     _SH.check(chk, D.load("checks"), ["_bit/", "_bitset/", "_random/", "_memory/", "_numeric/", "_math/", "_cstdlib/", "_strings/"], floor=30)
